@@ -437,6 +437,11 @@ class ExcFlow(object):
             if call.args and self._bytes_typed(f, call.args[0]):
                 return ['binascii.Error']
             return ['binascii.Error', 'ValueError']
+        if nm in ('text_type', 'str', 'unicode') and (
+                len(call.args) >= 2 or any(
+                    k.arg in ('encoding', 'errors') for k in call.keywords)):
+            # str(bytes, encoding[, errors]) decodes
+            return ['UnicodeDecodeError']
         if nm == 'encode' and isinstance(call.func, ast.Attribute) and \
                 isinstance(call.func.value, ast.Name) and \
                 call.args and isinstance(call.args[0], ast.Constant) and \
